@@ -548,6 +548,9 @@ func genWriter(r *vh.Rand) string {
 		case 5:
 			return 2*capN + 1
 		}
+		if r.Chance(1, 4) {
+			return r.Range(3*capN, 9*capN) // many copy+flush rounds in one call
+		}
 		return r.Range(0, 3*capN)
 	}
 	for i := 0; i < nops; i++ {
